@@ -83,7 +83,7 @@ func genEntry(r *rand.Rand, mode, site, n, other string) Entry {
 	if mode == "literal" {
 		return lit(n, "v"+site)
 	}
-	kinds := []string{"lit", "tmplself", "tmplother", "shlit", "shenv", "refself", "refother"}
+	kinds := []string{"lit", "tmplself", "tmplother", "shlit", "shenv", "shtmpl", "refself", "refother"}
 	switch site {
 	case "os":
 		kinds = []string{"lit"}
@@ -99,6 +99,8 @@ func genEntry(r *rand.Rand, mode, site, n, other string) Entry {
 		return shv(n, "echo "+site+"sh"+n)
 	case "shenv":
 		return shv(n, "echo "+site+n+"$"+other)
+	case "shtmpl":
+		return shtv(n, "echo "+site+"t"+n, other)
 	case "refself":
 		return refv(n, n)
 	case "refother":
